@@ -1,25 +1,35 @@
 ---------------------------- MODULE GlyphMapTrace ----------------------------
-(* Trace specification, abstract level (C17): traces of harness/drv_glyph.c recorded from   *)
-(* the library with its real constants (HIGH = 16384, LOW = 8192, HASH_SIZE = 32768) are     *)
-(* validated against GlyphMap.tla -- the statement's map + LRU order -- and glyph drawing    *)
-(* against the fold the statement names.  Events as in GlyphTrace.tla, without table dumps;  *)
-(* long runs use batched events, each the n-fold sequential composition of the single call:  *)
-(*   InsB [from, n, ret, hd0, o, pix, ctr]  n inserts of keys from..from+n-1, all returned   *)
-(*                                          ret (the driver starts a new event when the      *)
-(*                                          return value changes); o/pix per inserted key    *)
+(* Trace specification for the library with its real constants (C17; HIGH = 16384,         *)
+(* LOW = 8192, 32768 slots): traces of harness/drv_glyph.c without table dumps are         *)
+(* validated against GlyphMap.tla -- the statement's map + LRU order -- and glyph drawing  *)
+(* against the fold the statement names.  Events as in GlyphTrace.tla; long runs use       *)
+(* batched events, each the n-fold sequential composition of the single call:              *)
+(*   InsB [from, n, ret, hd0, o, pix, ctr]  n inserts of keys from..from+n-1, all returned *)
+(*                                          ret (a new event when the return value changes) *)
 (*   LookB [from, n, hits, o, hd]           n lookups; the keys found, their origins/handles *)
-(*   RemB [from, n, step]                   n removes                                        *)
-(*   UseB [from, n, step, nmissing, o, pix] n drawing calls of one glyph each                *)
-(*   Glyphs [mode, op, list, steps, a, b, ...]  one drawing through the glyph API (a) and,   *)
-(*                                          on an identical destination, through the route   *)
-(*                                          the statement equates it with (b)                *)
-(* The counters ctr = [n_glyphs, n_tombstones, freeze_count] come from hook H1; the ghost    *)
-(* dead is read from n_tombstones (and must move as the abstract actions allow), the         *)
-(* number of survivors of an eviction from n_glyphs (which survivors is then decided by      *)
-(* lookups through the public API).                                                          *)
+(*   RemB [from, n, step]                   n removes                                      *)
+(*   UseB [from, n, step, nmissing, o, pix] n drawing calls of one glyph each              *)
+(*   Glyphs [...]                           one drawing through the glyph API and through  *)
+(*                                          the route the statement equates it with        *)
+(* Two levels, as in GlyphTrace.tla.                                                       *)
+(* (A) mandatory, at the level the property states.  The map and the LRU order evolve as   *)
+(*     the calls say; the logged n_glyphs is the size of the map; lookups return the map's *)
+(*     entries.  An insert that returns non-NULL is always fine.  A refusal is acceptable  *)
+(*     only if the cache COULD be full under some table organisation: live + dub >=        *)
+(*     capacity - 1, dub = entries removed or evicted so far in the execution (no          *)
+(*     organisation has more dead positions than that).  At the outermost thaw not         *)
+(*     evicting is fine when live <= HIGH; evicting -- least recently used first down to   *)
+(*     LOW, or everything -- is fine when live + dub > HIGH; where both hold both are      *)
+(*     accepted.  Nothing else ever disappears.  The logged n_tombstones lies in 0..dub.   *)
+(* (B) tracked only: the tombstone bookkeeping of pixman-glyph.c on the logged counters    *)
+(*     (insert reuses at most one tombstone and refuses iff n_glyphs + n_tombstones >=     *)
+(*     HASH_SIZE - 1; remove adds at most one; lookups change nothing; thaw evicts iff     *)
+(*     n_glyphs + n_tombstones > HIGH, everything iff n_tombstones > HIGH).  A departure   *)
+(*     prints a VF:policy note once and is not a violation.                                *)
 EXTENDS GlyphMap, TraceIO
 
-VARIABLES l, lruExact      \* lruExact: FALSE once drawing calls that may leave glyphs untouched were made
+VARIABLES l, lruExact,     \* lruExact: FALSE once drawing calls that may leave glyphs untouched were made
+          dub, exact
 
 KeysEv == TraceLog[2]
 TH     == KeysEv.H
@@ -29,13 +39,23 @@ TLow   == KeysEv.LOW
 TKeys  == 1..KeysEv.n
 TVals  == {}
 
-tvars == <<live, val, lru, freeze, dead, ret, l, lruExact>>
+tvars == <<live, val, lru, freeze, dead, ret, l, lruExact, dub, exact>>
 
 Ev(name) == l <= TraceLen /\ TraceLog[l].e = name
 
-Counters(ev) ==            \* what the hook shows after the call agrees with the abstract state
+(* (A) what the hook shows after the call agrees with the abstract state; gone = entries removed/evicted by the call *)
+Counters(ev, gone) ==
     /\ Cardinality(live') = ev.ctr[1]
     /\ freeze' = ev.ctr[3]
+    /\ dead' = ev.ctr[2]
+    /\ dub' = dub + gone
+    /\ dead' >= 0 /\ dead' <= dub'
+
+(* (B) *)
+Track(ex) ==
+    /\ exact' = (exact /\ ex)
+    /\ (exact /\ ~ex) => PrintT(<<"VF:policy", "tombstones", l>>)   \* (short: TLC wraps long tuples)
+    \* "tombstones": n_tombstones / capacity / thaw decisions depart from the tombstone bookkeeping of GlyphCache.tla, first at event l
 
 Enc(o) == (o[1] + 8) + 16 * (o[2] + 8)
 Dec(e) == <<(e % 16) - 8, (e \div 16) - 8, 1, 1>>
@@ -46,41 +66,44 @@ InBatch(ev, x) == x >= ev.from /\ x <= ev.from + (ev.n - 1) * ev.step /\ (x - ev
 TReset ==
     /\ Ev("Reset")
     /\ live' = {} /\ val' = <<>> /\ lru' = <<>> /\ freeze' = 0 /\ dead' = 0 /\ ret' = Void
-    /\ lruExact' = TRUE
+    /\ lruExact' = TRUE /\ dub' = 0 /\ exact' = TRUE
     /\ l' = l + 1
 
 TKeysEv ==
     /\ Ev("Keys")
     /\ TraceLog[l] = KeysEv
-    /\ UNCHANGED <<live, val, lru, freeze, dead, ret, lruExact>>
+    /\ UNCHANGED <<live, val, lru, freeze, dead, ret, lruExact, dub, exact>>
     /\ l' = l + 1
 
 TFreeze ==
     /\ Ev("Freeze")
-    /\ dead' = TraceLog[l].ctr[2]
-    /\ AFreeze
-    /\ Counters(TraceLog[l])
+    /\ freeze' = freeze + 1 /\ ret' = Void
+    /\ UNCHANGED <<live, val, lru>>
+    /\ Counters(TraceLog[l], 0)
+    /\ Track(dead' = dead)
     /\ UNCHANGED lruExact
     /\ l' = l + 1
 
-(* AThaw with the number of survivors read from the counter: \E m : AEvictTo(m) without enumerating m *)
 TThaw ==
     /\ Ev("Thaw")
-    /\ LET ev == TraceLog[l] IN
+    /\ LET ev == TraceLog[l]
+           n  == Len(lru)
+           m  == ev.ctr[1]                               \* survivors; which ones is then decided by lookups
+           keep == IF n < TLow THEN n ELSE TLow
+       IN
        /\ freeze > 0
        /\ freeze' = freeze - 1
        /\ ret' = Void
-       /\ dead' = ev.ctr[2]
-       /\ \/ UNCHANGED <<live, val, lru>> /\ dead' = dead
-          \/ ev.ctr[1] < Cardinality(live) /\ lruExact /\ AEvictTo(ev.ctr[1])
-          \/ ev.ctr[1] = Cardinality(live) /\ dead' # dead /\ AEvictTo(ev.ctr[1])    \* only tombstones changed
-       \* the water-mark rule on the logged counters of the pre-state (as in GlyphTrace.tla)
-       /\ IF freeze = 1 /\ Occupied > HIGH
-          THEN Len(lru') = IF dead > HIGH THEN 0 ELSE IF Len(lru) < TLow THEN Len(lru) ELSE TLow
-          ELSE lru' = lru /\ dead' = dead
-       /\ Counters(ev)
-       /\ IF ev.ctr[1] < Cardinality(live)
-          THEN PrintT(<<"VF:evicted", Cardinality(live), ev.ctr[1]>>) ELSE TRUE
+       /\ \/ /\ m = n /\ UNCHANGED <<live, val, lru>>              \* nothing goes
+             /\ freeze > 1 \/ n <= HIGH
+          \/ /\ m < n /\ freeze = 1 /\ n + dub > HIGH /\ lruExact     \* may be above the high-water mark
+             /\ m \in {keep, 0}
+             /\ KeepPrefix(m)                                        \* least recently used first
+       /\ Counters(ev, n - m)
+       /\ Track(IF freeze = 1 /\ n + dead > HIGH
+                THEN m = (IF dead > HIGH THEN 0 ELSE keep) /\ dead' <= dead + (n - m)
+                ELSE m = n /\ dead' = dead)
+       /\ IF m < n THEN PrintT(<<"VF:evicted", n, m>>) ELSE TRUE
     /\ UNCHANGED lruExact
     /\ l' = l + 1
 
@@ -88,31 +111,44 @@ TInsert ==
     /\ Ev("Insert")
     /\ LET ev == TraceLog[l]
            v  == [o |-> ev.o, pix |-> ev.pix, hd |-> ev.hd]
-       IN  /\ dead' = ev.ctr[2]
-           /\ AInsert(ev.k, v)
-           /\ ret'.hit = ev.ret
-           /\ ev.ret => ev.ro = ev.o /\ ev.hd > 0
-           /\ Counters(ev)
+       IN  /\ freeze > 0 /\ ev.k \notin live
+           /\ IF ev.ret
+              THEN /\ live' = live \cup {ev.k}
+                   /\ val' = [x \in live \cup {ev.k} |-> IF x = ev.k THEN v ELSE val[x]]
+                   /\ lru' = <<ev.k>> \o lru
+                   /\ ret' = Found(v)
+                   /\ ev.ro = ev.o /\ ev.hd > 0
+              ELSE /\ Cardinality(live) + dub >= CAP               \* refused: only if the cache could be full
+                   /\ ret' = Void
+                   /\ UNCHANGED <<live, val, lru>>
+           /\ Counters(ev, 0)
+           /\ Track(IF ev.ret THEN dead' \in {dead, dead - 1} /\ Cardinality(live') + dead' <= CAP
+                    ELSE Occupied >= CAP /\ dead' = dead)
     /\ UNCHANGED lruExact
     /\ l' = l + 1
 
 TLookup ==
     /\ Ev("Lookup")
     /\ LET ev == TraceLog[l] IN
-       /\ dead' = ev.ctr[2]
-       /\ ALookup(ev.k)
+       /\ ret' = IF ev.k \in live THEN Found(val[ev.k]) ELSE Void
        /\ ret'.hit = ev.ret
-       /\ ev.ret => /\ ret'.v[1].o = ev.ro
-                    /\ ret'.v[1].hd = ev.hd
-       /\ Counters(ev)
+       /\ ev.ret => /\ val[ev.k].o = ev.ro
+                    /\ val[ev.k].hd = ev.hd
+       /\ UNCHANGED <<live, val, lru>>
+       /\ Counters(ev, 0)
+       /\ Track(dead' = dead)
     /\ UNCHANGED lruExact
     /\ l' = l + 1
 
 TRemove ==
     /\ Ev("Remove")
-    /\ dead' = TraceLog[l].ctr[2]
-    /\ ARemove(TraceLog[l].k)
-    /\ Counters(TraceLog[l])
+    /\ LET ev == TraceLog[l] IN
+       /\ live' = live \ {ev.k}
+       /\ val' = [x \in live \ {ev.k} |-> val[x]]
+       /\ lru' = Without(lru, ev.k)
+       /\ ret' = Void
+       /\ Counters(ev, IF ev.k \in live THEN 1 ELSE 0)
+       /\ Track(dead' <= dead + 1 /\ (ev.k \notin live => dead' = dead))
     /\ UNCHANGED lruExact
     /\ l' = l + 1
 
@@ -130,9 +166,9 @@ TUse ==
              /\ (ev.mode \in {2, 3}) => \A j \in DOMAIN ev.got[i].pix : ev.got[i].pix[j] = <<0, 0>>
        /\ lru' = UseAll(lru, ev.ks)                   \* AUse of each, in list order
        /\ ret' = Found(val[ev.ks[Len(ev.ks)]])
-       /\ dead' = ev.ctr[2] /\ dead' = dead
-       /\ UNCHANGED <<live, val, freeze>>
-       /\ Counters(ev)
+       /\ UNCHANGED <<live, val>>
+       /\ Counters(ev, 0)
+       /\ Track(dead' = dead)
     /\ UNCHANGED lruExact
     /\ l' = l + 1
 
@@ -144,7 +180,6 @@ TInsB ==
            R  == ev.from..(ev.from + ev.n - 1)
        IN  /\ freeze > 0
            /\ R \cap live = {}
-           /\ dead' = ev.ctr[2]
            /\ IF ev.ret
               THEN /\ live' = live \cup R
                    /\ val' = [k \in live \cup R |->
@@ -152,16 +187,15 @@ TInsB ==
                                 ELSE [o |-> Dec(ev.o[k - ev.from + 1]), pix |-> <<ev.pix[k - ev.from + 1]>>,
                                       hd |-> ev.hd0 + (k - ev.from)]]
                    /\ lru' = [i \in 1..ev.n |-> ev.from + ev.n - i] \o lru
-                   /\ dead' \in (dead - ev.n)..dead /\ dead' >= 0       \* each insert reuses at most one dead position
-                   /\ Cardinality(live) + ev.n + dead' <= CAP           \* hence a free position remained throughout
                    /\ ev.hd0 > 0
                    /\ ret' = Found(val'[ev.from + ev.n - 1])
-              ELSE /\ Occupied >= CAP                                   \* refused: only when full
+              ELSE /\ Cardinality(live) + dub >= CAP                    \* refused: only if the cache could be full
                    /\ ret' = Void
-                   /\ dead' = dead
                    /\ UNCHANGED <<live, val, lru>>
-           /\ UNCHANGED freeze
-           /\ Counters(ev)
+           /\ Counters(ev, 0)
+           /\ Track(IF ev.ret
+                    THEN dead' \in (dead - ev.n)..dead /\ Cardinality(live) + ev.n + dead' <= CAP
+                    ELSE Occupied >= CAP /\ dead' = dead)
     /\ UNCHANGED lruExact
     /\ l' = l + 1
 
@@ -176,10 +210,10 @@ TLookB ==
                  /\ Enc(val[ev.hits[i]].o) = ev.o[i]
                  /\ val[ev.hits[i]].hd = ev.hd[i]
            /\ PrintT(<<"VF:lookb", ev.n, Len(ev.hits)>>)
-           /\ dead' = ev.ctr[2] /\ dead' = dead
            /\ ret' = Void
-           /\ UNCHANGED <<live, val, lru, freeze>>
-           /\ Counters(ev)
+           /\ UNCHANGED <<live, val, lru>>
+           /\ Counters(ev, 0)
+           /\ Track(dead' = dead)
     /\ UNCHANGED lruExact
     /\ l' = l + 1
 
@@ -190,11 +224,9 @@ TRemB ==
        IN  /\ live' = keep
            /\ val' = [k \in keep |-> val[k]]
            /\ lru' = SelectSeq(lru, LAMBDA x : ~InBatch(ev, x))
-           /\ dead' = ev.ctr[2]
-           /\ dead' \in 0..(dead + Cardinality(live) - Cardinality(keep))   \* each remove leaves at most one dead position
            /\ ret' = Void
-           /\ UNCHANGED freeze
-           /\ Counters(ev)
+           /\ Counters(ev, Cardinality(live) - Cardinality(keep))
+           /\ Track(dead' <= dead + Cardinality(live) - Cardinality(keep))
     /\ UNCHANGED lruExact
     /\ l' = l + 1
 
@@ -209,10 +241,10 @@ TUseB ==
                                         /\ (i % 4 = 1) => val[ks[i]].pix = <<ev.pix[i]>>
                                         /\ (i % 4 \in {3, 0}) => ev.pix[i] = <<0, 0>>
            /\ lru' = Rev(ks) \o SelectSeq(lru, LAMBDA x : ~InBatch(ev, x))
-           /\ dead' = ev.ctr[2] /\ dead' = dead
            /\ ret' = Void
-           /\ UNCHANGED <<live, val, freeze>>
-           /\ Counters(ev)
+           /\ UNCHANGED <<live, val>>
+           /\ Counters(ev, 0)
+           /\ Track(dead' = dead)
     /\ UNCHANGED lruExact
     /\ l' = l + 1
 
@@ -239,11 +271,11 @@ TGlyphs ==
                               ELSE <<k, x - val[k].o[1] - ev.mask_x, y - val[k].o[2] - ev.mask_y>>
        /\ ev.a = ev.b
     /\ lruExact' = FALSE
-    /\ UNCHANGED <<live, val, lru, freeze, dead, ret>>
+    /\ UNCHANGED <<live, val, lru, freeze, dead, ret, dub, exact>>
     /\ l' = l + 1
 
 TInit == /\ live = {} /\ val = <<>> /\ lru = <<>> /\ freeze = 0 /\ dead = 0 /\ ret = Void
-         /\ lruExact = TRUE /\ l = 1
+         /\ lruExact = TRUE /\ l = 1 /\ dub = 0 /\ exact = TRUE
 
 TNext == \/ TReset \/ TKeysEv \/ TFreeze \/ TThaw \/ TInsert \/ TLookup \/ TRemove \/ TUse
          \/ TInsB \/ TLookB \/ TRemB \/ TUseB \/ TGlyphs
